@@ -364,6 +364,7 @@ func rulesC12(w *World, r *Report) {
 		o := r.add("C12.R1 no write to package-level state from the API", "package variable "+g.Name(), w.pos(g.Pos()), ok, fact)
 		o.Trivial = len(writes[g]) == 0
 	}
+	w.ruleSharedPoolAliases(r, "C12.R6 memory put back into a shared pool is not handed out")
 	r.role("package-level variables", gnames)
 	// the floor counts the variables that can carry shared state (maps, slices,
 	// pointers, interfaces, structs): a scalar such as a chunk size kept in a var
